@@ -60,18 +60,19 @@ Qed.
 Definition with_proj (c : case) (p : project) : case :=
   {| c_proj := p; c_cmd := c_cmd c; c_unit := c_unit c; c_lang := c_lang c; c_fname := c_fname c;
      c_overrides := c_overrides c; c_metrics := c_metrics c |}.
-Definition only_yaml (d : dict) : project := {| p_yaml := Doc d; p_json := Absent; p_pyproject := Absent; p_dash := None |}.
-Definition only_json (d : dict) : project := {| p_yaml := Absent; p_json := Doc d; p_pyproject := Absent; p_dash := None |}.
-Definition only_pyproject (d : dict) : project := {| p_yaml := Absent; p_json := Absent; p_pyproject := Doc d; p_dash := None |}.
+Definition only_yaml (d : dict) : project := {| p_yaml := Doc d; p_json := Absent; p_pyproject := Absent; p_dash := None; p_ignore_file := []; p_subdir := false |}.
+Definition only_json (d : dict) : project := {| p_yaml := Absent; p_json := Doc d; p_pyproject := Absent; p_dash := None; p_ignore_file := []; p_subdir := false |}.
+Definition only_pyproject (d : dict) : project := {| p_yaml := Absent; p_json := Absent; p_pyproject := Doc d; p_dash := None; p_ignore_file := []; p_subdir := false |}.
 Definition only_dash (pos : dashpos) (suf : string) (d : dict) : project :=
   {| p_yaml := Absent; p_json := Absent; p_pyproject := Absent;
-     p_dash := Some {| d_pos := pos; d_suffix := suf; d_file := Doc d |} |}.
+     p_dash := Some {| d_pos := pos; d_suffix := suf; d_file := Doc d |}; p_ignore_file := []; p_subdir := false |}.
 
 (* the specification looks at the project only through the selected document *)
 Lemma spec_by_doc c p k raw :
-  spec_selected (with_proj c p) = LDoc k raw -> spec (with_proj c p) = spec (with_proj c (only_yaml raw)).
+  spec_selected (with_proj c p) = LDoc k raw -> p_ignore_file p = [] ->
+  spec (with_proj c p) = spec (with_proj c (only_yaml raw)).
 Proof.
-  intros H. unfold spec. rewrite H.
+  intros H Hi. unfold spec. rewrite H. cbn [c_proj with_proj]. rewrite Hi.
   change (spec_selected (with_proj c (only_yaml raw))) with (LDoc KYaml raw). reflexivity.
 Qed.
 
@@ -93,49 +94,49 @@ Theorem carrier_equivalence q c d pos suf :
 Proof.
   intros H G L S.
   rewrite !(run_exact q _ H) by assumption.
-  rewrite (spec_by_doc c (only_json d) KJson d eq_refl).
-  rewrite (spec_by_doc c (only_pyproject d) KPy d eq_refl).
-  rewrite (spec_by_doc c (only_dash pos suf d) KDash d (spec_selected_only_dash c pos suf d S)). repeat split.
+  rewrite (spec_by_doc c (only_json d) KJson d eq_refl eq_refl).
+  rewrite (spec_by_doc c (only_pyproject d) KPy d eq_refl eq_refl).
+  rewrite (spec_by_doc c (only_dash pos suf d) KDash d (spec_selected_only_dash c pos suf d S) eq_refl). repeat split.
 Qed.
 
 (* precedence among discovered files: .thailint.yaml, then .thailint.json, then pyproject.toml *)
 Theorem yaml_wins q c dy fj fp :
   flags_off q -> case_good c = true -> lang_good c = true ->
-  run q (with_proj c {| p_yaml := Doc dy; p_json := fj; p_pyproject := fp; p_dash := None |})
+  run q (with_proj c {| p_yaml := Doc dy; p_json := fj; p_pyproject := fp; p_dash := None; p_ignore_file := []; p_subdir := false |})
   = run q (with_proj c (only_yaml dy)).
 Proof.
   intros H G L. rewrite !(run_exact q _ H) by assumption.
-  exact (spec_by_doc c {| p_yaml := Doc dy; p_json := fj; p_pyproject := fp; p_dash := None |} KYaml dy eq_refl).
+  exact (spec_by_doc c {| p_yaml := Doc dy; p_json := fj; p_pyproject := fp; p_dash := None; p_ignore_file := []; p_subdir := false |} KYaml dy eq_refl eq_refl).
 Qed.
 
 Theorem json_wins q c dj fp :
   flags_off q -> case_good c = true -> lang_good c = true ->
-  run q (with_proj c {| p_yaml := Absent; p_json := Doc dj; p_pyproject := fp; p_dash := None |})
+  run q (with_proj c {| p_yaml := Absent; p_json := Doc dj; p_pyproject := fp; p_dash := None; p_ignore_file := []; p_subdir := false |})
   = run q (with_proj c (only_json dj)).
 Proof.
   intros H G L. rewrite !(run_exact q _ H) by assumption.
-  rewrite (spec_by_doc c {| p_yaml := Absent; p_json := Doc dj; p_pyproject := fp; p_dash := None |} KJson dj eq_refl).
-  now rewrite (spec_by_doc c (only_json dj) KJson dj eq_refl).
+  rewrite (spec_by_doc c {| p_yaml := Absent; p_json := Doc dj; p_pyproject := fp; p_dash := None; p_ignore_file := []; p_subdir := false |} KJson dj eq_refl eq_refl).
+  now rewrite (spec_by_doc c (only_json dj) KJson dj eq_refl eq_refl).
 Qed.
 
 (* --config beats every discovered file (as long as the discovered one parses) *)
 Theorem dash_wins q c fy fj fp pos suf dd :
   flags_off q -> case_good c = true -> lang_good c = true -> smem suf doc_valid_suffixes = true ->
-  spec_discovered {| p_yaml := fy; p_json := fj; p_pyproject := fp; p_dash := None |} <> LErr ->
+  spec_discovered {| p_yaml := fy; p_json := fj; p_pyproject := fp; p_dash := None; p_ignore_file := []; p_subdir := false |} <> LErr ->
   run q (with_proj c {| p_yaml := fy; p_json := fj; p_pyproject := fp;
-                        p_dash := Some {| d_pos := pos; d_suffix := suf; d_file := Doc dd |} |})
+                        p_dash := Some {| d_pos := pos; d_suffix := suf; d_file := Doc dd |}; p_ignore_file := []; p_subdir := false |})
   = run q (with_proj c (only_dash pos suf dd)).
 Proof.
   intros H G L S D. rewrite !(run_exact q _ H) by assumption.
   assert (E : spec_selected (with_proj c {| p_yaml := fy; p_json := fj; p_pyproject := fp;
-                 p_dash := Some {| d_pos := pos; d_suffix := suf; d_file := Doc dd |} |}) = LDoc KDash dd).
+                 p_dash := Some {| d_pos := pos; d_suffix := suf; d_file := Doc dd |}; p_ignore_file := []; p_subdir := false |}) = LDoc KDash dd).
   { unfold spec_selected, spec_dash. cbn [c_proj with_proj p_dash d_file d_suffix].
     change (spec_discovered {| p_yaml := fy; p_json := fj; p_pyproject := fp;
-                               p_dash := Some {| d_pos := pos; d_suffix := suf; d_file := Doc dd |} |})
-      with (spec_discovered {| p_yaml := fy; p_json := fj; p_pyproject := fp; p_dash := None |}).
+                               p_dash := Some {| d_pos := pos; d_suffix := suf; d_file := Doc dd |}; p_ignore_file := []; p_subdir := false |})
+      with (spec_discovered {| p_yaml := fy; p_json := fj; p_pyproject := fp; p_dash := None; p_ignore_file := []; p_subdir := false |}).
     destruct (spec_discovered _); [contradiction|]. now rewrite S. }
-  rewrite (spec_by_doc c _ KDash dd E).
-  now rewrite (spec_by_doc c _ KDash dd (spec_selected_only_dash c pos suf dd S)).
+  rewrite (spec_by_doc c _ KDash dd E eq_refl).
+  now rewrite (spec_by_doc c _ KDash dd (spec_selected_only_dash c pos suf dd S) eq_refl).
 Qed.
 
 (* a CLI threshold option beats the section and every per-language sub-section *)
@@ -315,7 +316,7 @@ Definition bad_value (v : option val) (cm : cmp) (b : Z) : Prop :=
 Theorem invalid_value_exit_2 q c k raw o cm b :
   flags_off q -> case_good c = true -> lang_good c = true ->
   spec_selected c = LDoc k raw ->
-  existsb (String.eqb (c_fname c)) (str_list (get "ignore" raw)) = false ->
+  existsb (String.eqb (c_fname c)) (p_ignore_file (c_proj c) ++ str_list (get "ignore" raw)) = false ->
   In (o, cm, b) (doc_guards (c_unit c)) ->
   bad_value (spec_res c (section_of (c_unit c) raw) o) cm b
   \/ bad_value (spec_res_top c (section_of (c_unit c) raw) o) cm b ->
@@ -367,14 +368,23 @@ Qed.
 (* ------------------------------------------------------------------ 6. top-level ignore *)
 Theorem top_level_ignore_honoured q c k raw :
   flags_off q -> case_good c = true -> lang_good c = true ->
-  spec_selected c = LDoc k raw -> In (c_fname c) (str_list (get "ignore" raw)) ->
+  spec_selected c = LDoc k raw -> In (c_fname c) (p_ignore_file (c_proj c) ++ str_list (get "ignore" raw)) ->
   run q c = Ran 0.
 Proof.
   intros H G L S I. rewrite (run_exact q c H G L). unfold spec. rewrite S.
-  assert (E : existsb (String.eqb (c_fname c)) (str_list (get "ignore" raw)) = true).
+  assert (E : existsb (String.eqb (c_fname c)) (p_ignore_file (c_proj c) ++ str_list (get "ignore" raw)) = true).
   { apply existsb_exists. exists (c_fname c). split; [exact I|apply String.eqb_refl]. }
   now rewrite E.
 Qed.
+
+(* where the linted file lies below the project directory does not matter *)
+Definition with_subdir (c : case) (b : bool) : case :=
+  with_proj c {| p_yaml := p_yaml (c_proj c); p_json := p_json (c_proj c); p_pyproject := p_pyproject (c_proj c);
+                 p_dash := p_dash (c_proj c); p_ignore_file := p_ignore_file (c_proj c); p_subdir := b |}.
+Theorem subdirectory_irrelevant q c :
+  flags_off q -> case_good c = true -> lang_good c = true ->
+  run q (with_subdir c true) = run q (with_subdir c false).
+Proof. intros H G L. rewrite !(run_exact q _ H) by assumption. reflexivity. Qed.
 
 (* ------------------------------------------------------------------ 7. the claimed vector outside the defect classes *)
 (* For the vector claimed for the current tree: on projects configured by .thailint.yaml and/or .thailint.json (or not at all),
@@ -392,7 +402,7 @@ Proof. vm_compute. reflexivity. Qed.
 
 Theorem actual_partial c :
   unit_clean (c_unit c) = true -> case_good c = true -> lang_good c = true ->
-  p_pyproject (c_proj c) = Absent -> p_dash (c_proj c) = None -> c_overrides c = [] ->
+  p_pyproject (c_proj c) = Absent -> p_dash (c_proj c) = None -> c_overrides c = [] -> p_subdir (c_proj c) = false ->
   (* no guarded option is given as a non-number and the top-level values are valid: the wrong-type, retry and
      shadowed-value defects are excluded *)
   (forall k raw, spec_selected c = LDoc k raw ->
@@ -401,7 +411,7 @@ Theorem actual_partial c :
      guard_status (doc_opts (c_unit c)) (doc_guards (c_unit c)) (spec_res_top c (section_of (c_unit c) raw)) = StOk) ->
   run config_actual c = spec c.
 Proof.
-  intros U G L P D O T V.
+  intros U G L P D O Sd T V.
   unfold unit_clean in U. rewrite !andb_true_iff, !negb_true_iff in U. destruct U as [[[U1 U2] U3] U4].
   apply run_confined; [|exact G|exact L].
   constructor; try assumption; try (right; assumption).
